@@ -359,7 +359,10 @@ class Consumer(object):
         def _handle_shutdown_commit_failure(failure):
             """Handle failure of commit() attempted by shutdown"""
             if failure.check(OperationInProgress):
-                failure.value.deferred.addCallback(_commit_and_stop)
+                # Commit once the commit in progress is over. Should that one fail (or be
+                # cancelled by stop()) the shutdown fails with it: waiting only for its
+                # success would hang the shutdown forever.
+                failure.value.deferred.addCallbacks(_commit_and_stop, _handle_shutdown_commit_failure)
                 return
 
             self._shutdown_d, d = None, self._shutdown_d
